@@ -101,13 +101,13 @@ def vstructE (n : Nat) (ty : PE) : PE :=
     seq (sepBy (objectFieldE n ty) (cls (· == ',')) n false) <| seq (wceStarE n) (cls (· == ')'))
 
 def btypeE (n : Nat) (ty : PE) : PE :=
-  alt (litE "bool".toList) <| alt (litE "int".toList) <| alt (litE "float".toList) <|
-  alt (litE "string".toList) <| alt (litE "object".toList) <| alt (nameE n) <|
+  alt (litE ['b', 'o', 'o', 'l']) <| alt (litE ['i', 'n', 't']) <| alt (litE ['f', 'l', 'o', 'a', 't']) <|
+  alt (litE ['s', 't', 'r', 'i', 'n', 'g']) <| alt (litE ['o', 'b', 'j', 'e', 'c', 't']) <| alt (nameE n) <|
   alt (vstructE n ty) (venumE n)
 
-def arrayE : PE := litE "[]".toList
-def dictE : PE := litE "[string]".toList
-def optionE : PE := litE "?".toList
+def arrayE : PE := litE ['[', ']']
+def dictE : PE := litE ['[', 's', 't', 'r', 'i', 'n', 'g', ']']
+def optionE : PE := litE ['?']
 
 def typeE : Nat → PE
   | 0 => fun _ e => (none, e)
@@ -123,19 +123,19 @@ def memberHeadE (n : Nat) (kw : Str) : PE :=
   seq (wceStarE n) <| seq (litE kw) <| seq (wcePlusE n) <| seq (nameE n) (wceStarE n)
 
 def vtypedefE (n : Nat) : PE :=
-  alt (seq (memberHeadE n "type".toList) (vstructE n (typeE n)))
-      (seq (memberHeadE n "type".toList) (venumE n))
+  alt (seq (memberHeadE n ['t', 'y', 'p', 'e']) (vstructE n (typeE n)))
+      (seq (memberHeadE n ['t', 'y', 'p', 'e']) (venumE n))
 
-def errorE (n : Nat) : PE := seq (memberHeadE n "error".toList) (vstructE n (typeE n))
+def errorE (n : Nat) : PE := seq (memberHeadE n ['e', 'r', 'r', 'o', 'r']) (vstructE n (typeE n))
 
 def methodE (n : Nat) : PE :=
-  seq (memberHeadE n "method".toList) <| seq (vstructE n (typeE n)) <| seq (wceStarE n) <|
-    seq (litE "->".toList) <| seq (wceStarE n) (vstructE n (typeE n))
+  seq (memberHeadE n ['m', 'e', 't', 'h', 'o', 'd']) <| seq (vstructE n (typeE n)) <| seq (wceStarE n) <|
+    seq (litE ['-', '>']) <| seq (wceStarE n) (vstructE n (typeE n))
 
 def memberE (n : Nat) : PE := alt (methodE n) (alt (vtypedefE n) (errorE n))
 
 def parseInterfaceE (n : Nat) : PE :=
-  seq (wceStarE n) <| seq (litE "interface".toList) <| seq (wcePlusE n) <|
+  seq (wceStarE n) <| seq (litE ['i', 'n', 't', 'e', 'r', 'f', 'a', 'c', 'e']) <| seq (wcePlusE n) <|
     seq (tok (interfaceNameF n)) <| seq eolE <| seq (sepBy (memberE n) eolE n true) (wceStarE n)
 
 /-- `max_err_pos` after the first pass of the exported `ParseInterface` function
